@@ -71,6 +71,8 @@ package qbft
 //@ canary r1
 
 // (C14: receivers index values by the SAME deterministic hash the proposer signed: hashProto of the decoded value)
+// hashCovers(h, v): h is a collision-resistant digest of every byte of the Any v (type URL and value).
+//@ spec func hashCovers(h [32]byte, v *anypb.Any) bool
 //@ func valuesByHash
 //@ props C05 C14
 //@ nopanic
@@ -79,6 +81,9 @@ package qbft
 //@ ensures r1 == nil ==> forallk(h, r0, exists(k, 0, len(values), r0[h] == values[k] && res(1, values[k].UnmarshalNew()) == nil &&
 //@+   res(1, hashProto(res(0, values[k].UnmarshalNew()))) == nil && res(0, hashProto(res(0, values[k].UnmarshalNew()))) == h))
 //@ ensures r1 == nil ==> forall(k, 0, len(values), exists(h, 0, 1, has(r0, res(0, hashProto(res(0, values[k].UnmarshalNew()))))))
+// What is filed under a hash is bound to that hash in full, type URL included (known finding F-C05: the hash covers the
+// re-marshalled inner message only; hashCovers has no introduction rule because nothing in the code looks at the type URL).
+//@ ensures r1 == nil ==> forallk(h, r0, hashCovers(h, r0[h]))
 //@ loop 1 invariant forallk(h, resp, exists(k, 0, $i, resp[h] == values[k] && res(1, values[k].UnmarshalNew()) == nil &&
 //@+   res(1, hashProto(res(0, values[k].UnmarshalNew()))) == nil && res(0, hashProto(res(0, values[k].UnmarshalNew()))) == h))
 //@ loop 1 invariant forall(k, 0, $i, has(resp, res(0, hashProto(res(0, values[k].UnmarshalNew())))))
